@@ -57,6 +57,7 @@ FNS = {
     'true': lambda v: True,
     'isna': lambda v: v is Missing or v is None,
     'eq5':  lambda v: v == 5,
+    'isp':  lambda v: v == 'p',
 }
 ROWPREDS = {
     'has1': lambda r: 1 in r,
@@ -67,21 +68,42 @@ ROWPREDS = {
 }
 
 # ------------------------------------------------------------------------------------------------ queries
-# query  = {'pred': name} | {'cmp': op|None, 'kws': [[col, spec], ...], ['cmpkw': True]}
+# query  = {'pred': name} | {'pred': ['cell', col, op, value]} (row predicate on the cell at columns.index(col))
+#        | {'cmp': op|None, 'kws': [[col, spec], ...], ['cmpkw': True]}
 # spec   = ['v', value] | ['list'|'tuple'|'set', [values]] | ['fn', name] | ['dict', op, spec]
 
 ORD = {'<': operator.lt, '<=': operator.le, '>': operator.gt, '>=': operator.ge}
 VALUE_OPS = ['=', '!=', '<', '<=', '>', '>=']
 LIST_OPS = ['in', '!in']
 
-VALS = {'a': [-1, 0, 1, 2, 3, 0.5, None, 'x'], 'b': ['a', 'x', 'xx', 'y', 'z', None, 1], 'c': [3, 4, 5, 6, None]}
+VALS = {'a': [-1, 0, 1, 2, 3, 0.5, None, 'x'], 'b': ['a', 'x', 'xx', 'y', 'z', None, 1], 'c': [3, 4, 5, 6, None],
+        'd': ['o', 'p', 'q', None]}
 LISTS = {'a': [['list', []], ['list', [0]], ['list', [1]], ['list', [0, 2]], ['list', [2, 0]], ['list', [0, 0]],
                ['list', [0, 0, 2]], ['list', [1, 5]], ['list', [-1, 3]], ['tuple', [0, 1]], ['set', [0, 2]]],
          'b': [['list', []], ['list', ['x']], ['list', ['y', 'x']], ['list', ['x', 'x']], ['list', ['z']],
                ['set', ['x', 'y']], ['tuple', ['a', 'y']]],
-         'c': [['list', []], ['list', [4]], ['list', [5, 4]], ['list', [4, 4]], ['list', [9]]]}
-MATCH = {'a': [1, '1', '[02]'], 'b': ['x', '^y', '[xy]', 1], 'c': [4, '5']}
-COLFNS = {'a': ['eq1', 'in02', 'isna'], 'b': ['isx', 'true', 'isna'], 'c': ['eq5', 'isna']}
+         'c': [['list', []], ['list', [4]], ['list', [5, 4]], ['list', [4, 4]], ['list', [9]]],
+         'd': [['list', []], ['list', ['p']], ['list', ['q', 'p']], ['list', ['p', 'p']], ['list', ['o']]]}
+MATCH = {'a': [1, '1', '[02]'], 'b': ['x', '^y', '[xy]', 1], 'c': [4, '5'], 'd': ['p']}
+COLFNS = {'a': ['eq1', 'in02', 'isna'], 'b': ['isx', 'true', 'isna'], 'c': ['eq5', 'isna'], 'd': ['isp', 'isna']}
+ALLCOLS = ('a', 'b', 'c', 'd')
+
+
+CELLPRED = {'=': lambda c, v: c == v, '!=': lambda c, v: c != v, 'in': lambda c, v: c in v, '!in': lambda c, v: c not in v}
+CELLVAL = {'a': 1, 'b': 'x', 'c': 5, 'd': 'p'}
+
+
+def row_pred(p, cols):
+    """the callable handed to where(): by name, or a predicate on one positional cell of the row"""
+    if isinstance(p, str): return ROWPREDS[p]
+    _, col, op, val = p
+    i = list(cols).index(col); f = CELLPRED[op]
+    return lambda r: f(r[i], val)
+
+
+def cell_preds(col):
+    v = CELLVAL[col]
+    return [{'pred': ['cell', col, '=', v]}, {'pred': ['cell', col, '!=', v]}]
 
 
 def render(spec):
@@ -125,12 +147,14 @@ REDUCED = {
     'b': [['v', 'x'], ['list', ['y']], ['dict', '<', ['v', 'y']], ['dict', '>=', ['v', 'y']], ['dict', '!in', ['list', ['x']]],
           ['dict', 'match', ['v', '^y']], ['fn', 'isx'], ['dict', '=', ['v', 'q']]],
     'c': [['v', 5], ['dict', '<=', ['v', 4]], ['dict', 'in', ['list', [4]]], ['fn', 'isna']],
+    'd': [['v', 'p'], ['dict', '>', ['v', 'o']], ['fn', 'isna']],
 }
 
 
 def multi_queries(cols):
     out = []
     for c1, c2 in itertools.permutations(cols, 2):
+        if 'd' in (c1, c2) and 'a' not in (c1, c2): continue        # d is only paired with a
         for s1 in REDUCED[c1]:
             for s2 in REDUCED[c2]:
                 out.append({'cmp': None, 'kws': [[c1, s1], [c2, s2]]})
@@ -139,7 +163,7 @@ def multi_queries(cols):
         out.append({'cmp': '<', 'kws': [['b', ['v', 'y']], ['a', ['v', 1]]]})
         out.append({'cmp': '>=', 'kws': [['a', ['v', 2]], ['b', ['dict', '=', ['v', 'x']]]]})
         out.append({'cmp': 'in', 'kws': [['a', ['list', [0]]], ['b', ['list', ['y']]]]})
-    if len(cols) == 3:
+    if {'a', 'b', 'c'} <= set(cols):
         out.append({'cmp': None, 'kws': [['a', ['v', 0]], ['b', ['v', 'y']], ['c', ['v', 5]]]})
         out.append({'cmp': None, 'kws': [['c', ['dict', '<', ['v', 5]]], ['a', ['v', 2]], ['b', ['list', ['x']]]]})
     return out
@@ -148,7 +172,7 @@ def multi_queries(cols):
 def nested_queries(col):
     """reduced battery applied to where-results (views)"""
     out = []
-    vals = {'a': [0, 1, 5], 'b': ['x', 'y', 'q'], 'c': [4, 9]}[col]
+    vals = {'a': [0, 1, 5], 'b': ['x', 'y', 'q'], 'c': [4, 9], 'd': ['p', 'r']}[col]
     for v in vals[:2]: out.append({'cmp': None, 'kws': [[col, ['v', v]]]})
     for op in VALUE_OPS:
         for v in vals: out.append({'cmp': None, 'kws': [[col, ['dict', op, ['v', v]]]]})
@@ -161,9 +185,9 @@ def nested_queries(col):
 
 
 def third_queries(cols):
-    out = [{'pred': 'no0'}]
+    out = [{'pred': 'no0'}, {'pred': ['cell', cols[-1], '!=', CELLVAL[cols[-1]]]}]
     for col in cols:
-        v = {'a': 1, 'b': 'y', 'c': 5}[col]
+        v = {'a': 1, 'b': 'y', 'c': 5, 'd': 'p'}[col]
         out += [{'cmp': None, 'kws': [[col, ['v', v]]]}, {'cmp': '>=', 'kws': [[col, ['v', v]]]},
                 {'cmp': '<', 'kws': [[col, ['v', v]]]}, {'cmp': '!in', 'kws': [[col, ['list', [v]]]]}]
     return out
@@ -176,9 +200,11 @@ def battery(cols):
     key = tuple(sorted(cols))
     if key not in _QCACHE:
         q1 = [{'pred': p} for p in ROWPREDS]
+        for c in key: q1 += cell_preds(c)
         for c in key: q1 += single_queries(c)
         q1 += multi_queries(key)
         q2 = [{'pred': 'has1'}, {'pred': 'none'}]
+        for c in key: q2 += cell_preds(c)[:1]
         for c in key: q2 += nested_queries(c)
         if len(key) >= 2:
             q2.append({'cmp': None, 'kws': [[key[0], REDUCED[key[0]][2]], [key[1], REDUCED[key[1]][0]]]})
@@ -238,7 +264,7 @@ def cond_mask(op, arg, cells):
 
 def expected_mask(cols, rows, q):
     if 'pred' in q:
-        f = ROWPREDS[q['pred']]
+        f = row_pred(q['pred'], cols)
         return [bool(f(r)) for r in rows]
     mask = [False] * len(rows)
     for col, spec in q['kws']:
@@ -287,7 +313,7 @@ def is_sorted(cols, rows, indexes):
 
 
 def opgroup(q):
-    if 'pred' in q: return 'rowpred'
+    if 'pred' in q: return 'rowpred' if isinstance(q['pred'], str) else 'rowpred-on-positional-cell'
     ops = set()
     for col, spec in q['kws']:
         op, _ = semantic_op(q, spec)
@@ -307,6 +333,7 @@ def qform(q):
 
 INDEX_OPS2 = [['index', list(p)] for n in (1, 2) for p in itertools.permutations(['a', 'b'], n)]
 INDEX_OPS3 = [['index', list(p)] for n in (1, 2, 3) for p in itertools.permutations(['a', 'b', 'c'], n)]
+INDEX_OPSD = [['index', ['d']], ['index', ['d', 'a']], ['index', ['a', 'd']]]
 
 PAYLOADS = [
     # (name, forms, rows)
@@ -319,15 +346,17 @@ PAYLOADS = [
     ('noa',     ['dicts', 'cols'],         [{'b': 'x'}]),
     ('ragged',  ['dicts'],                 [{'a': 0, 'b': 'x'}, {'a': 2}]),
     ('empty',   ['rows'],                  []),
+    ('addcd',   ['dicts', 'cols'],         [{'a': 1, 'c': 5, 'd': 'p'}]),                  # two new columns at once: the store keeps them in set order
 ]
 INSERT_OPS = [['insert', form, rows] for _, forms, rows in PAYLOADS for form in forms]
 INSERT_OPS_QUICK = [['insert', 'rows', PAYLOADS[0][2]], ['insert', 'dicts', PAYLOADS[1][2]], ['insert', 'cols', PAYLOADS[2][2]],
                     ['insert', 'dicts', PAYLOADS[3][2]], ['insert', 'cols', PAYLOADS[4][2]], ['insert', 'dicts', PAYLOADS[5][2]],
-                    ['insert', 'cols', PAYLOADS[6][2]], ['insert', 'dicts', PAYLOADS[7][2]], ['insert', 'rows', []]]
+                    ['insert', 'cols', PAYLOADS[6][2]], ['insert', 'dicts', PAYLOADS[7][2]], ['insert', 'rows', []],
+                    ['insert', 'dicts', PAYLOADS[9][2]]]
 
 
 class World:
-    __slots__ = ('t', 'mrows', 'dead', 'hist', 'init', 'cache')
+    __slots__ = ('t', 'mrows', 'dead', 'hist', 'init', 'cache', 'parts')
 
     def __init__(self, init):
         self.init = init
@@ -335,6 +364,11 @@ class World:
         self.hist = []
         self.dead = False
         self.mrows = []          # model: list of {col: value} (absent = padded)
+        self.parts = None
+        if 'long' in init:       # structured long table: the rows arrive through ['inspart', i] operations
+            self.t = Table(columns=['a', 'b', 'x'])
+            self.parts = long_parts(init['long'], init.get('mode', 'sort'))
+            return
         if init.get('nocols'):
             self.t = Table()
         else:
@@ -344,13 +378,37 @@ class World:
             form = init.get('form', 'rows')
             if form == 'rows': self.t.insert(rows)
             elif form == 'dicts': self.t.insert([{'a': r[0], 'b': r[1]} for r in rows])
-            else: self.t.insert({'a': [r[0] for r in rows], 'b': [r[1] for r in rows]})
+            elif form == 'cols': self.t.insert({'a': [r[0] for r in rows], 'b': [r[1] for r in rows]})
             self.mrows = [{'a': r[0], 'b': r[1]} for r in rows]
+        if init.get('form') == 'colsperm':     # a column mapping whose key order (b,a) differs from columns=(a,b) is adopted as the store
+            self.t = Table({'b': [r[1] for r in rows], 'a': [r[0] for r in rows]}, columns=['a', 'b'])
 
     def cols(self): return tuple(self.t.columns)
     def rows(self): return list(self.t)
     def witness(self, **kw):
         w = {'init': self.init, 'hist': list(self.hist)}; w.update(kw); return w
+
+
+def long_rows(spec):
+    """rows (a, b, x) of a structured long table, ascending in (a, b); x is a unique row id"""
+    rows = []
+    if spec['kind'] == 'L1':      # a = runs of equal values 0,1,2,...; b alternates x,y inside every run
+        for v, r in enumerate(spec['runs']):
+            for j in range(r): rows.append([v, 'xy'[j % 2], len(rows)])
+    else:                         # L2: `pre` rows a=0, then the block a=1 whose b column holds the runs, then two rows a=2
+        for j in range(spec.get('pre', 0)): rows.append([0, 0, len(rows)])
+        for v, r in enumerate(spec['runs']):
+            for j in range(r): rows.append([1, v, len(rows)])
+        rows.append([2, 0, len(rows)]); rows.append([2, 1, len(rows)])
+    return rows
+
+
+def long_parts(spec, mode):
+    rows = long_rows(spec)
+    if mode == 'sort': return [rows[::-1]]                        # arrives in reverse, index() has to sort
+    if mode == 'presorted': return [rows]                         # index() on the empty table, then rows in order (what Result.from_* do)
+    h = len(rows) // 2
+    return [rows[:h], rows[h:][::-1]]                             # 'late': half, index(), rest in reverse
 
 
 def insert_arg(world, form, prow):
@@ -359,13 +417,14 @@ def insert_arg(world, form, prow):
     if form == 'cols':
         keys = list(prow[0]) if prow else []
         return {k: [r[k] for r in prow] for k in keys}
-    return [[r.get(c, 6 if c == 'c' else None) for c in cols] for r in prow]     # rows form: in the table's column order
+    return [[r.get(c, {'c': 6, 'd': 'q'}.get(c)) for c in cols] for r in prow]     # rows form: in the table's column order
 
 
 def op_enabled(world, op):
     if world.dead: return False
     cols = world.cols()
     if op[0] == 'index': return all(c in cols for c in op[1])
+    if op[0] == 'inspart': return world.parts is not None and op[1] < len(world.parts)
     if op[0] == 'insert':
         if op[1] == 'rows':   # needs every table column (c is filled in), and a table that has columns
             return bool(cols) and all(set(r) <= set(cols) and {'a', 'b'} <= set(r) for r in op[2])
@@ -422,6 +481,18 @@ def step(world, op, acc):
                           f'index{tuple(op[1])}: {before} -> {after}', world.witness())
             world.dead = True
         return
+    if op[0] == 'inspart':
+        arg = [list(r) for r in world.parts[op[1]]]
+        try:
+            t.insert(arg)
+        except Exception as e:    # noqa
+            acc.violation(f'insert|raises {type(e).__name__}|form=rows long', f'insert of {len(arg)} rows raised {e!r}', world.witness()); world.dead = True; return
+        world.mrows += [dict(zip(('a', 'b', 'x'), r)) for r in arg]
+        cols = world.cols(); after = world.rows()
+        if cols != ('a', 'b', 'x') or multiset(cols, after) != model_multiset(cols, world.mrows):
+            acc.violation(f'insert|rows not added exactly|form=rows indexed={indexed} long', f'table shows {len(after)} rows {after[:5]}..., expected {len(world.mrows)}', world.witness())
+            world.dead = True
+        return
     if op[0] == 'insert':
         arg = insert_arg(world, op[1], op[2])
         try:
@@ -462,7 +533,7 @@ def canon(world):
 # ------------------------------------------------------------------------------------------------ query oracle
 
 def call_where(t, q):
-    if 'pred' in q: return t.where(ROWPREDS[q['pred']])
+    if 'pred' in q: return t.where(row_pred(q['pred'], t.columns))
     kw = {col: render(spec) for col, spec in q['kws']}
     if q.get('cmpkw'): return t.where(comparison=q['cmp'], **kw)
     if q['cmp'] is not None: return t.where(None, q['cmp'], **kw)
@@ -473,7 +544,7 @@ def stale_feature(world, cols, rows, t):
     s = is_sorted(cols, rows, tuple(t.indexes))
     if s is True: return None
     if s == 'unorderable': return 'index columns unorderable'
-    kinds = [op[0] for op in world.hist]
+    kinds = ['insert' if op[0] == 'inspart' else op[0] for op in world.hist]
     if 'index' in kinds and 'insert' in kinds[kinds.index('index'):]: return 'rows not sorted by declared index since insert into indexed table'
     return 'rows not sorted by declared index'
 
@@ -509,6 +580,8 @@ def where_key(world, mode, q, cols, rows, t, depth):
     ops = opgroup(q)
     if not rows: return f'where|{mode}|empty table path={path}' + (' op=match' if 'match' in ops else '')
     sp = _specs(q)
+    if 'pred' in q and list(getattr(t, '_data', cols)) != list(cols):
+        return f'where|{mode}|column store order differs from columns op={ops}'
     if len(sp) > 1 and leak_feature(q): return f'where|{mode}|{{op: value}} keyword followed by a plain keyword'
     if any(spec[0] == 'dict' and spec[1] == '!in' for _, spec, _ in sp): return f"where|{mode}|{{'!in': values}} form path={path}"
     if any(inner[0] in ('list', 'tuple') and len(set(inner[1])) != len(inner[1]) for _, _, inner in sp):
@@ -516,7 +589,7 @@ def where_key(world, mode, q, cols, rows, t, depth):
     if any(r[cols.index(col)] is Missing for col, _, _ in sp for r in rows):
         return f'where|{mode}|Missing in column path={path} op={ops}'
     return (f'where|{mode}|plain path={path} op={ops} form={qform(q)}' + (' several keywords' if len(sp) > 1 else '')
-            + (' on where-result' if depth else ''))
+            + (' on where-result' if depth else '') + (' more than 8 rows' if len(rows) > 8 else ''))
 
 
 def classify(world, mode, q, cols, rows, t, depth, chain):
@@ -583,24 +656,30 @@ def run_query(world, t, cols, q, acc, depth, chain):
         if isinstance(err, TypeError) and 'kws' in q and not orderable_arg(q, cols, after, tuple(t.indexes)):
             acc.outcome('TypeError for an argument that cannot be ordered against the column: accepted'); return None, None, None
         report(acc, classify(world, f'raises {type(err).__name__}', q, cols, after, t, depth, chain),
-                      f'where({fmt(q)}) raised {err!r} on rows {after} indexes {tuple(t.indexes)}; a scan selects {exp}', world.witness(chain=chain))
+                      f'where({fmt(q)}) raised {err!r} on rows {short(after)} indexes {tuple(t.indexes)}; a scan selects {short(exp)}', world.witness(chain=chain))
         return None, None, None
     if not same_rows(got, exp):
         kind = 'wrong multiplicity' if Counter(map(nrow, got)) != Counter(map(nrow, exp)) and set(map(nrow, got)) == set(map(nrow, exp)) else \
                'wrong order' if Counter(map(nrow, got)) == Counter(map(nrow, exp)) else 'wrong rows'
         report(acc, classify(world, kind, q, cols, after, t, depth, chain),
-                      f'where({fmt(q)}) returned {got} on rows {after} indexes {tuple(t.indexes)}; a scan selects {exp}', world.witness(chain=chain))
+                      f'where({fmt(q)}) returned {short(got)} on rows {short(after)} indexes {tuple(t.indexes)}; a scan selects {short(exp)}', world.witness(chain=chain))
         return None, None, None
     if n != len(exp):
-        report(acc, classify(world, 'wrong len()', q, cols, after, t, depth, chain), f'len(where({fmt(q)}))={n}, rows {got}', world.witness(chain=chain))
+        report(acc, classify(world, 'wrong len()', q, cols, after, t, depth, chain), f'len(where({fmt(q)}))={n}, rows {short(got)}', world.witness(chain=chain))
         return None, None, None
     if rcols != cols:
         acc.violation('where|result has other columns|', f'{rcols} vs {cols}', world.witness(chain=chain)); return None, None, None
     return res, exp, tuple(mask)
 
 
+def short(rows):
+    """row lists of long tables are quoted by their first rows and their length"""
+    rows = list(rows)
+    return repr(rows) if len(rows) <= 8 else f'{rows[:6]!r}..({len(rows)} rows)'
+
+
 def fmt(q):
-    if 'pred' in q: return 'row_pred=' + q['pred']
+    if 'pred' in q: return 'row_pred=' + (q['pred'] if isinstance(q['pred'], str) else 'row[columns.index(%r)] %s %r' % tuple(q['pred'][1:]))
     s = ', '.join(f'{c}={render(sp) if sp[0] != "fn" and not (sp[0]=="dict" and sp[2][0]=="fn") else "<fn %s>" % sp[-1]}' for c, sp in q['kws'])
     return (f'comparison={q["cmp"]!r}, ' if q['cmp'] is not None else '') + s
 
@@ -612,13 +691,13 @@ def run_groupby(world, t, cols, rows, level, select, acc, chain):
     acc.transitions += 1; acc.traces += 1
     idx = tuple(t.indexes)
     st = stale_feature(world, cols, rows, t)
-    feat = st or (('empty table' if not rows else 'plain') + f' select={"none" if select is None else "count" if select == "count" else "column" if isinstance(select, str) else "columns"}'
+    feat = st or (('empty table' if not rows else 'more than 8 rows' if len(rows) > 8 else 'plain') + f' select={"none" if select is None else "count" if select == "count" else "column" if isinstance(select, str) else "columns"}'
                   + (' on where-result' if chain else ''))
     wit = world.witness(chain=chain, groupby=[level, select])
     try:
         got = list(t.groupby(level, select))
     except Exception as e:   # noqa
-        report(acc, f'groupby|raises {type(e).__name__}|{feat}', f'groupby({level},{select!r}) raised {e!r} on rows {rows} indexes {idx}', wit); return
+        report(acc, f'groupby|raises {type(e).__name__}|{feat}', f'groupby({level},{select!r}) raised {e!r} on rows {short(rows)} indexes {idx}', wit); return
     pi = [cols.index(c) for c in idx[:level]]
     groups = {}
     for r in rows: groups.setdefault(nrow(tuple(r[i] for i in pi)), []).append(r)
@@ -648,7 +727,86 @@ def run_groupby(world, t, cols, rows, level, select, acc, chain):
                 gr = Counter(nrow(x) for x in zip(*pl)) if pl else Counter()
                 if gr != Counter(nrow(tuple(r[cols.index(s)] for s in select)) for r in g): bad = 'wrong column values'; break
     if bad:
-        report(acc, f'groupby|wrong partition|{feat}', f'groupby({level},{select!r}) gave {got} on rows {rows} indexes {idx}: {bad}', wit)
+        report(acc, f'groupby|wrong partition|{feat}', f'groupby({level},{select!r}) gave {short(got)} on rows {short(rows)} indexes {idx}: {bad}', wit)
+
+
+def base_consistent(world, t, cols, rows, acc):
+    """the rows the table shows are the rows that were put in, and column access agrees with them"""
+    if multiset(cols, rows) != model_multiset(cols, world.mrows):
+        acc.violation('table|rows shown differ from the rows put in|' + ('column store order differs from columns' if list(getattr(t, '_data', cols)) != list(cols) else ''),
+                      f'list(table) = {rows[:6]} columns {cols}, put in {world.mrows[:6]}', world.witness())
+        return False
+    for i, c in enumerate(cols):
+        try:
+            colv = list(t[c])
+        except Exception as e:   # noqa
+            acc.violation(f'table|column access raises {type(e).__name__}|', repr(e), world.witness()); return False
+        if not same_rows([tuple(colv)], [tuple(r[i] for r in rows)]):
+            acc.violation('table|column access differs from the rows shown|', f'table[{c!r}] = {colv[:8]} vs rows {rows[:8]}', world.witness()); return False
+    return True
+
+
+def long_queries(col, vals, forms=True):
+    """every comparison on one column of a long table: every present value, a value between / below / above, lists"""
+    vals = sorted(vals)
+    if all(isnum(v) for v in vals): args = vals + [v + 0.5 for v in vals] + [vals[0] - 1, vals[-1] + 1]; absent = vals[-1] + 7
+    else: args = vals + [v + 'x' for v in vals] + ['', '~']; absent = '~~'
+    out = []
+    for i, (op, arg) in enumerate(itertools.product(VALUE_OPS, args)):
+        if forms and i % 2: out.append({'cmp': op, 'kws': [[col, ['v', arg]]]})
+        else: out.append({'cmp': None, 'kws': [[col, ['dict', op, ['v', arg]]]]})
+    lists = [[v] for v in vals] + [[vals[0], vals[-1]], [vals[len(vals) // 2]] * 2, [absent], []]
+    for l in lists:
+        out.append({'cmp': None, 'kws': [[col, ['dict', 'in', ['list', l]]]]})
+        out.append({'cmp': '!in', 'kws': [[col, ['list', l]]]} if forms else {'cmp': None, 'kws': [[col, ['dict', '!in', ['list', l]]]]})
+    for v in vals[:2]: out.append({'cmp': None, 'kws': [[col, ['v', v]]]})
+    return out
+
+
+def explore_long(world, acc):
+    """battery for the structured long tables: every comparison x every present / between / outside value on the index
+    columns, on the table and on long where-results (slice and list views), and groupby at every level"""
+    t = world.t; cols = world.cols()
+    rows0 = list(t)
+    if not base_consistent(world, t, cols, rows0, acc): return
+    nontrivial = False
+    qcols = [c for c in ('a', 'b') if c in t.indexes] or ['a']
+    colvals = {c: sorted({r[cols.index(c)] for r in rows0}) for c in ('a', 'b', 'x')}
+    a0, a9 = colvals['a'][0], colvals['a'][-1]
+    ids = [0, 1, 2, 10, 11, 12]
+    viewq = [{'cmp': None, 'kws': [['a', ['dict', '!=', ['v', a0]]]]},
+             {'pred': ['cell', 'x', '!in', ids]},
+             {'cmp': None, 'kws': [['a', ['list', [a0, a9]]]]},
+             {'cmp': None, 'kws': [['b', ['v', colvals['b'][0]]]]},
+             {'cmp': '!in', 'kws': [['x', ['list', ids]]]}]
+    views = []
+    for q in viewq:
+        res, exp, mask = run_query(world, t, cols, q, acc, 0, [q])
+        if res is not None and all(mask != m for _, _, _, m in views): views.append((res, exp, [q], mask))
+    for c in qcols:
+        for q in long_queries(c, colvals[c]):
+            res, exp, mask = run_query(world, t, cols, q, acc, 0, [q])
+            if res is not None and 0 < len(exp) < len(rows0): nontrivial = True
+    rows = list(t)
+    for level in range(len(t.indexes)):
+        for sel in (None, 'count', 'x', ['a', 'x']):
+            run_groupby(world, t, cols, rows, level, sel, acc, [])
+    for v, vrows, chain, _ in views:
+        if not vrows: continue
+        for c in qcols:
+            vals = sorted({r[cols.index(c)] for r in vrows})
+            for q in long_queries(c, vals, forms=False):
+                run_query(world, v, cols, q, acc, 1, chain + [q])
+        for level in range(len(v.indexes)):
+            for sel in ('count', 'x'):
+                run_groupby(world, v, cols, vrows, level, sel, acc, chain)
+    acc.states += 1
+    acc.outcome(('long', len(rows0) > 16, len(rows0) > 32, len(rows0) > 64, tuple(t.indexes)))
+    if nontrivial: acc.mark_nontrivial(case_hash(['state', world.init, world.hist]))
+
+
+def explore(world, acc):
+    return explore_long(world, acc) if 'long' in world.init else explore_state(world, acc)
 
 
 def explore_state(world, acc):
@@ -656,9 +814,10 @@ def explore_state(world, acc):
     t = world.t
     cols = world.cols()
     if not cols: return
-    if not set(cols) <= {'a', 'b', 'c'}: return
+    if not set(cols) <= set(ALLCOLS): return
     q1, q2, q3 = battery(cols)
     rows0 = list(t)
+    if not base_consistent(world, t, cols, rows0, acc): return
     nontrivial = False
     views = {}          # distinct selections -> (real result table, expected rows, chain)
     for q in q1:
@@ -728,13 +887,19 @@ class C17(Check):
     RULE = ('state = real Table reached by a history of state-changing operations (insert as rows / dict-rows / column-mapping incl. '
             'ragged payloads that add column c or leave a/b Missing, index over every ordered subset of the existing columns, copy) from an '
             'initial table; family "data": every initial table of <=3 (thorough <=4) rows over a in {0,1,2} x b in {x,y} (plus <=2 rows '
-            'with mixed-type / None b) x every indexing history of length <=1 (and index;index); family "hist": initial tables of <=2 rows x every '
+            'with mixed-type / None b, and tables built from a column mapping whose key order differs from `columns`) x every indexing history of length <=1 '
+            '(and index;index); family "runs": structured long tables (a,b,x) made of 1..3 runs of equal index values with every combination of run lengths from '
+            '{1,2,16,17,18,33} (+ pairs from {1,8,9,17,32,33,34,65}; thorough {1,2,8,9,16,17,18,32,33,65} and pairs from 1..65 around 8/16/32/64), as first-level runs and as '
+            'second-level runs inside a block that starts at row 0 or 2, sorted by index() / inserted in order into an indexed empty table / half inserted after index(), '
+            'queried with every comparison x every present, in-between and outside value on the index columns, on the table and on long slice/list where-results, plus groupby at every level; family "hist": initial tables of <=2 rows x every '
             'history of <=2 (quick) / <=3 (thorough) operations over the full alphabet (one operation more over a 7-operation alphabet), breadth-first with merging of states whose complete slot contents '
             'are equal; in every state the whole battery runs: every comparison x argument alphabet x calling form per column, '
-            'two/three-keyword unions, row predicates, a reduced battery on every distinct where-result (slice, list and empty views) and a '
+            'two/three-keyword unions, row predicates (whole-row and on the positional cell of a named column), a reduced battery on every distinct where-result (slice, list and empty views) and a '
             'third level on every distinct where-of-where, groupby(level, select) on tables and views. A state is non-trivial when a query on an indexed '
             'column selected a non-empty proper subset of the rows.')
     ASSUMPTIONS = [
+        'a row predicate receives the row as list(table) shows it (cells in the order of table.columns)',
+        'column access table[c] must agree with the rows shown; the rows shown must be the rows that were put in (per column name)',
         'reference for where = row-by-row scan of the rows the table itself shows (list(table)) right after the query, in that order, with multiplicity',
         'ordered comparisons skip None and treat Missing as above every value (the order index() sorts it in); =,!=,in,!in use plain Python equality (Missing == None)',
         'a comparison Python itself cannot evaluate (ordering a str cell against a number, None argument with <) is unconstrained; a TypeError is also accepted for =,!=,in,!in when the argument cannot be ordered against the column (sorted lookup) and for <,<=,>,>= on an index column that holds a real None',
@@ -752,9 +917,9 @@ class C17(Check):
                   'battery (all operators x argument alphabet incl. absent / out-of-range / duplicate / empty / wrongly typed arguments x positional, keyword and '
                   '{op:value} forms, unions, row predicates, where-of-where over all distinct selections, groupby) is answered by the real code and compared '
                   'with a plain scan of the rows the table shows. Exhaustive below the bound: the shortest violating (table, history, query) is found with certainty.')
-    LEVEL_NOTE = ('small scope: <=4 initial rows over 3x2 values, payloads of <=2 rows, histories <=3 operations, where chains <=3; '
+    LEVEL_NOTE = ('small scope: <=4 initial rows over 3x2 values (long tables: <=3 runs of <=65 rows), payloads of <=2 rows, histories <=3 operations, where chains <=3; '
                   'values outside the alphabets and longer histories are not covered')
-    MIN_NONTRIVIAL = {'quick': 500, 'thorough': 5000}
+    MIN_NONTRIVIAL = {'quick': 1500, 'thorough': 10000}
     CASE_TIMEOUT = 900          # a breadth-first case holds up to ~500 states; generous because the machine is shared
 
     # ---- cases
@@ -778,9 +943,34 @@ class C17(Check):
                 for h1 in INDEX_OPS2:
                     for h2 in INDEX_OPS2:
                         if h1 != h2: yield {'fam': 'data', 'init': {'rows': [list(r) for r in rows]}, 'hist': [h1, h2]}
+        # column mapping adopted as the store in another key order than `columns`
+        for n in range(0, 3 if tier == 'quick' else 4):
+            for rows in itertools.product(ROWVALS, repeat=n):
+                for h in short:
+                    yield {'fam': 'data', 'init': {'rows': [list(r) for r in rows], 'form': 'colsperm'}, 'hist': h}
+        # family runs: structured long tables - runs of equal index values whose lengths sit around the constants a
+        # shortcut in a search is likely to use (8, 16, 32, 64), at the start / middle / end of a block
+        if tier == 'quick': len3, len2 = [1, 2, 16, 17, 18, 33], [1, 8, 9, 17, 32, 33, 34, 65]
+        else: len3, len2 = [1, 2, 8, 9, 16, 17, 18, 32, 33, 65], [1, 2, 7, 8, 9, 15, 16, 17, 18, 31, 32, 33, 34, 63, 64, 65]
+        shapes = [r for n in (1, 2, 3) for r in itertools.product(len3, repeat=n)]
+        shapes += [r for r in itertools.product(len2, repeat=2) if r not in set(shapes)]
+        for runs in shapes:
+            if True:
+                if sum(runs) <= 4: continue
+                long1 = {'kind': 'L1', 'runs': list(runs)}
+                for idx in (['a'], ['a', 'b'], ['b', 'a']):
+                    yield {'fam': 'runs', 'init': {'long': long1, 'mode': 'sort'}, 'hist': [['inspart', 0], ['index', idx]]}
+                yield {'fam': 'runs', 'init': {'long': long1, 'mode': 'presorted'}, 'hist': [['index', ['a']], ['inspart', 0]]}
+                yield {'fam': 'runs', 'init': {'long': long1, 'mode': 'late'}, 'hist': [['inspart', 0], ['index', ['a']], ['inspart', 1]]}
+                for pre in (0, 2):
+                    long2 = {'kind': 'L2', 'runs': list(runs), 'pre': pre}
+                    yield {'fam': 'runs', 'init': {'long': long2, 'mode': 'sort'}, 'hist': [['inspart', 0], ['index', ['a', 'b']]]}
+                yield {'fam': 'runs', 'init': {'long': {'kind': 'L2', 'runs': list(runs), 'pre': 2}, 'mode': 'presorted'},
+                       'hist': [['index', ['a', 'b']], ['inspart', 0]]}
         # family hist: BFS over the full operation alphabet, one case per (initial table, first operation)
         depth = 2 if tier == 'quick' else 3
-        inits = [{'rows': []}, {'rows': [], 'nocols': True}, {'rows': [[1, 'y']]}, {'rows': [[0, 'y'], [2, 'x']]}, {'rows': [[2, 'x'], [0, 'x']]}]
+        inits = [{'rows': []}, {'rows': [], 'nocols': True}, {'rows': [[1, 'y']]}, {'rows': [[0, 'y'], [2, 'x']]}, {'rows': [[2, 'x'], [0, 'x']]},
+                 {'rows': [[0, 'y'], [2, 'x']], 'form': 'colsperm'}]
         if tier != 'quick':
             inits += [{'rows': [[0, 'x'], [0, 'x']]}, {'rows': [[1, 'x'], [1, 'y'], [0, 'y']]}]
         for init in inits:
@@ -796,17 +986,17 @@ class C17(Check):
             return [['index', ['a']], ['index', ['b', 'a']], ['insert', 'rows', PAYLOADS[0][2]], ['insert', 'dicts', PAYLOADS[3][2]],
                     ['insert', 'cols', PAYLOADS[2][2]], ['index', ['c', 'a']], ['copy']]
         ins = INSERT_OPS_QUICK if name == 'quick' else INSERT_OPS
-        return INDEX_OPS3 + ins + [['copy']]
+        return INDEX_OPS3 + INDEX_OPSD + ins + [['copy']]
 
     # ---- execution
     def run_case(self, case, acc):
-        if case.get('fam') == 'data':
+        if case.get('fam') in ('data', 'runs'):
             w = World(case['init'])
             for op in case['hist']:
                 if not op_enabled(w, op): return
                 step(w, op, acc); acc.transitions += 1
                 if w.dead: return
-            explore_state(w, acc)
+            explore(w, acc)
             return
         if case.get('fam') == 'hist':
             alpha = self.alphabet(case.get('alphabet', 'thorough' if case['depth'] >= 3 else 'quick'))
@@ -841,7 +1031,7 @@ class C17(Check):
             if w.dead: return
         t = w.t; cols = w.cols()
         if wit.get('warm'):          # the failure needs the queries that ran before it: run the whole battery of that state
-            explore_state(w, acc); return
+            explore(w, acc); return
         chain = wit.get('chain') or []
         for i, q in enumerate(chain):
             res, exp, mask = run_query(w, t, cols, q, acc, min(i, 2), chain[:i + 1])
